@@ -8,4 +8,5 @@ git -C /repo worktree add --detach "$d" HEAD >/dev/null 2>&1
 rsync -a --exclude /.git /repo/ "$d"/
 # make the tree self-consistent: absolute paths in generated Makefiles point at /repo
 grep -rl --include=Makefile --include=config.status --include=libtool -e '/repo' "$d" 2>/dev/null | xargs -r sed -i "s#/repo#$d#g"
+/verif/tools/fixlinks.sh "$d"
 echo "$d"
